@@ -5,10 +5,14 @@ import sys
 
 pid = sys.argv[1]
 n = sys.argv[2] if len(sys.argv) > 2 else '2'
+avoid = sys.argv[3:]          # one-line descriptions of changes other people already produced
 for line in open('/verif/properties.jsonl'):
     p = json.loads(line)
     if p['id'] == pid:
         break
+AVOID = ""
+if avoid:
+    AVOID = "Other contributors have already produced the following changes for this property; do NOT repeat them or close variants of them - find different mechanisms and different code sites:\n" + "\n".join("  - " + a for a in avoid) + "\n\n"
 print(f"""You are helping to evaluate a verification framework for the Python library andialbrecht/sqlparse (a non-validating SQL lexer / splitter / token-grouping engine / formatter). Your job is to play the role of a developer who introduces a subtle regression.
 
 You have your own scratch git worktree of the library at /tmp/wt/{pid} (work ONLY there; never touch /repo; never read or list anything under /verif). Run the library from the worktree with `cd /tmp/wt/{pid} && PYTHONPATH=/tmp/wt/{pid} /venv/bin/python -B ...` and its test suite with `cd /tmp/wt/{pid} && PYTHONPATH=/tmp/wt/{pid} /venv/bin/python -B -m pytest -q -p no:cacheprovider` (about 3 seconds, 461 pass on the unchanged tree). There is no network.
@@ -27,7 +31,7 @@ Task: produce {n} DIFFERENT, independent source changes to the library (each a s
   3. is REALISTIC - the kind of slip or "optimisation"/"cleanup"/"refactor" a real contributor could make (off-by-one in index bookkeeping, a narrowed condition, a changed regex, a reordered step, a missing reset, a cached value, a changed default ...), not an obviously malicious `if input == 'xyz'` special case, and
   4. needs something SPECIFIC to manifest: an unusual input arrangement, a particular option combination, a multi-step sequence of calls, a particular interleaving, or two cooperating code sites that each look fine alone - NOT something that ordinary use would expose at once (since the existing tests must still pass, it cannot be blatant anyway). Prefer changes whose smallest failing input is short but un-obvious.
 
-Only change files under sqlparse/ (not tests/). Do not change the property, and do not add test files to the worktree.
+""" + AVOID + f"""Only change files under sqlparse/ (not tests/). Do not change the property, and do not add test files to the worktree.
 
 For each change k = 1..{n} write into /tmp/wt/{pid}-out/ :
   - change{{k}}.diff : `git diff` output for that change alone against the unchanged worktree (after saving it, `git checkout -- .` to reset before doing the next change),
